@@ -259,6 +259,11 @@ def check_circuit(rep, rng, syms, c, mode):
     vs = [v for v in syms]
     rng.shuffle(vs)
     vs = vs[:rng.choice([0, 1, 2, 2, 3])]
+    if rng.random() < 0.5:
+        # a variable the circuit does not depend on, listed BEFORE present ones: its row is zero
+        # and the other rows keep their place
+        import sympy as _sp
+        vs.insert(rng.randint(0, max(0, len(vs) - 1)), _sp.Symbol("absent%d" % rng.randint(0, 2), real=True))
     if any(documented_refusal(c, v) for v in vs):
         return
     case = dict(desc, jacobian=[str(v) for v in vs])
